@@ -180,6 +180,28 @@ type PrintOpts struct {
 	KeyOrder func(keys []string) []string
 	// Layout 0 = compact, 1 = spaces after separators, 2 = newlines+indent
 	Layout int
+	// Escape 1 writes one character of every JSON string (values and keys alike) as a \uXXXX escape, as an
+	// ASCII-only or paranoid JSON writer may; 2 also writes '/' as \/ . The document denotes the same strings.
+	Escape int
+}
+
+// qs renders a JSON string under the escape option.
+func (o *PrintOpts) qs(s string) string {
+	if o == nil || o.Escape == 0 || s == "" {
+		return q(s)
+	}
+	// escape the middle rune if it is plain ASCII (deterministic, position varies with length)
+	i := len(s) / 2
+	c := s[i]
+	if c < 0x20 || c >= 0x7f || c == '"' || c == '\\' {
+		return q(s)
+	}
+	out := q(s[:i])
+	out = out[:len(out)-1] + fmt.Sprintf("\\u%04x", c) + q(s[i+1:])[1:]
+	if o.Escape == 2 {
+		out = strings.ReplaceAll(out, "/", "\\/")
+	}
+	return out
 }
 
 type kv struct {
@@ -223,32 +245,32 @@ func (s *Schema) print(o *PrintOpts, depth int) string {
 		return "[" + open + strings.Join(parts, comma) + closeS + "]"
 	}
 	if IsPrimitive(s.Type) && !s.ObjectForm && s.Logical == "" && len(s.Extra) == 0 {
-		return q(s.Type)
+		return o.qs(s.Type)
 	}
 	var kvs []kv
-	kvs = append(kvs, kv{"type", q(s.Type)})
+	kvs = append(kvs, kv{"type", o.qs(s.Type)})
 	if s.Logical != "" {
-		kvs = append(kvs, kv{"logicalType", q(s.Logical)})
+		kvs = append(kvs, kv{"logicalType", o.qs(s.Logical)})
 	}
 	if s.Name != "" {
-		kvs = append(kvs, kv{"name", q(s.Name)})
+		kvs = append(kvs, kv{"name", o.qs(s.Name)})
 	}
 	if s.Namespace != "" {
-		kvs = append(kvs, kv{"namespace", q(s.Namespace)})
+		kvs = append(kvs, kv{"namespace", o.qs(s.Namespace)})
 	}
 	switch s.Type {
 	case "record":
 		var fs []string
 		fopen, fcomma, fcolon, fclose := sepFor(o, depth+2)
 		for _, f := range s.Fields {
-			fk := []kv{{"name", q(f.Name)}, {"type", f.Type.print(o, depth+3)}}
+			fk := []kv{{"name", o.qs(f.Name)}, {"type", f.Type.print(o, depth+3)}}
 			for _, e := range f.Extra {
 				fk = append(fk, kv{e.Key, e.Raw})
 			}
 			fk = orderKVs(o, fk)
 			var ps []string
 			for _, e := range fk {
-				ps = append(ps, q(e.k)+fcolon+e.v)
+				ps = append(ps, o.qs(e.k)+fcolon+e.v)
 			}
 			fs = append(fs, "{"+fopen+strings.Join(ps, fcomma)+fclose+"}")
 		}
@@ -277,7 +299,7 @@ func (s *Schema) print(o *PrintOpts, depth int) string {
 	kvs = orderKVs(o, kvs)
 	var ps []string
 	for _, e := range kvs {
-		ps = append(ps, q(e.k)+colon+e.v)
+		ps = append(ps, o.qs(e.k)+colon+e.v)
 	}
 	return "{" + open + strings.Join(ps, comma) + closeS + "}"
 }
